@@ -9,7 +9,8 @@
    a member mentions but that is not a slot of the class changes no member's value.
    Per handle: the inserted term and the term extracted for it have the same value, and the extracted term
    does not depend on slots the inserted term does not mention.
-   Every rule R must be (textually) a rule of FPPOOL_text, whose validity is Sem/FpFacts.v: fppool_valid.
+   Every rule R = (rule n (t lhs) (t rhs) C), C ::= none | (free (t slot) (t var)) | (and C C) | (or C C) | (not C),
+   must be (textually, condition tree included) a rule of FPPOOL_text, whose validity is Sem/FpFacts.v: fppool_valid.
    Output: (c03 ok) | (c03 skipped) | (c03 item...) with items
      (bad class <id> member <k> env <j> mod <p>)            member k differs from member 0 under environment j
      (bad class <id> member <k> env <j> mod <p> slot <y>)   member k depends on the redundant slot y
@@ -110,21 +111,68 @@ Definition check_handle (ps : list N) (es : list (N * fenv)) (ih : nat * (cterm 
               | None => []
               end) es) ps).
 
-(* the rules of the case must be rules of the pool *)
-Definition rule_known (r : rawrule) : bool :=
-  existsb (fun e : string * string * option (string * string) =>
+(* the rules of the case must be rules of the pool.  Rule format of this stream:
+     (rule <n> (t lhs) (t rhs) C)     C ::= none | (free (t slot) (t var)) | (and C C) | (or C C) | (not C)
+   (the condition is the tree the harness builds with the library's slot_free_in / and / or / not) *)
+Inductive rawcond :=
+| RCNone
+| RCFree (s v : text)
+| RCAnd (a b : rawcond)
+| RCOr (a b : rawcond)
+| RCNot (a : rawcond).
+
+Fixpoint dec_cond (fuel : nat) (e : sexp) : option rawcond :=
+  match fuel with
+  | O => None
+  | S f =>
+      match e with
+      | Sym "none" => Some RCNone
+      | Lst [Sym "free"; s; v] =>
+          match dec_text_sexp s, dec_text_sexp v with
+          | Some s', Some v' => Some (RCFree s' v')
+          | _, _ => None
+          end
+      | Lst [Sym "and"; a; b] =>
+          match dec_cond f a, dec_cond f b with Some a', Some b' => Some (RCAnd a' b') | _, _ => None end
+      | Lst [Sym "or"; a; b] =>
+          match dec_cond f a, dec_cond f b with Some a', Some b' => Some (RCOr a' b') | _, _ => None end
+      | Lst [Sym "not"; a] =>
+          match dec_cond f a with Some a' => Some (RCNot a') | None => None end
+      | _ => None
+      end
+  end.
+
+Record rawfrule := { rf_lhs : text; rf_rhs : text; rf_cond : rawcond }.
+
+Definition dec_frule (e : sexp) : option rawfrule :=
+  match e with
+  | Lst [Sym "rule"; Num _; l; r; c] =>
+      match dec_text_sexp l, dec_text_sexp r, dec_cond 16 c with
+      | Some l', Some r', Some c' => Some {| rf_lhs := l'; rf_rhs := r'; rf_cond := c' |}
+      | _, _, _ => None
+      end
+  | _ => None
+  end.
+
+Fixpoint cond_matches (c : ctext) (r : rawcond) : bool :=
+  match c, r with
+  | CTNone, RCNone => true
+  | CTFree s v, RCFree s' v' => text_eqb (T s) s' && text_eqb (T v) v'
+  | CTAnd a b, RCAnd a' b' => cond_matches a a' && cond_matches b b'
+  | CTOr a b, RCOr a' b' => cond_matches a a' && cond_matches b b'
+  | CTNot a, RCNot a' => cond_matches a a'
+  | _, _ => false
+  end.
+
+Definition rule_known (r : rawfrule) : bool :=
+  existsb (fun e : string * string * ctext =>
              let '(l, rh, c) := e in
-             text_eqb (T l) (rr_lhs r) && text_eqb (T rh) (rr_rhs r) &&
-             match c, rr_cond r with
-             | None, None => true
-             | Some (s, v), Some (s', v') => text_eqb (T s) s' && text_eqb (T v) v'
-             | _, _ => false
-             end) FPPOOL_text.
+             text_eqb (T l) (rf_lhs r) && text_eqb (T rh) (rf_rhs r) && cond_matches c (rf_cond r)) FPPOOL_text.
 
 Definition check_rules (rs : list sexp) : list sexp :=
   flat_map (fun e => match e with
                      | Lst (Sym "rule" :: Num n :: _) =>
-                         match dec_rule e with
+                         match dec_frule e with
                          | Some r => if rule_known r then [] else [Lst [Sym "unverified-rule"; Num n]]
                          | None => [Lst [Sym "unverified-rule"; Num n]]
                          end
